@@ -237,6 +237,12 @@ __attribute__((noinline)) void PSession::do_call(const Op &op, Outcome &o) {
             LIB(o.ret = binson_parser_field(p, np)); break;
         }
         case P_FIELD_LEN: {
+            // a > 0: the caller passes a name it got from the document itself (e.g. a span returned by get_name): the
+            // argument aliases the delivered buffer at offset a-1 (only if those bytes really are the name)
+            if (op.a > 0 && (size_t)(op.a - 1) + op.b.size() <= bblk.n && (op.b.empty() || memcmp(bblk.p + (op.a - 1), op.b.data(), op.b.size()) == 0)) {
+                bump(cnt, "probe.lookup_name_aliases_document");
+                LIB(o.ret = binson_parser_field_with_length(p, (const char *)bblk.p + (op.a - 1), op.b.size())); break;
+            }
             arg = block_alloc(op.b.size(), 0); if (!op.b.empty()) memcpy(arg.p, op.b.data(), op.b.size());
             LIB(o.ret = binson_parser_field_with_length(p, (const char *)arg.p, op.b.size())); break;
         }
@@ -346,7 +352,7 @@ Outcome PSession::call(const Op &op) {
     calls++; steps++;
     if (was_latched && !is_restart(op.code)) post_error_calls++;
 
-    if (inited && !is_init) { p->cb = sim_cb; p->cb_context = this; }
+    if (inited && !is_init) { p->cb = use_cb ? sim_cb : nullptr; p->cb_context = use_cb ? this : nullptr; }
     g_cur_session = this;
     uint64_t gate0 = g_gate_hits.load();
     if (!guarded(op, o)) {
@@ -363,7 +369,7 @@ Outcome PSession::call(const Op &op) {
     if (g_gate_hits.load() != gate0) sink.fail("C17.allocator_call", fmt("%s reached %s while inside the library", name, g_gate_last ? g_gate_last : "an allocator function"));
     if (o.skipped) return o;
     bump(cnt, std::string("api.") + name);
-    if (is_init) { p->cb = sim_cb; p->cb_context = this; }
+    if (is_init && use_cb) { p->cb = sim_cb; p->cb_context = this; }
 
     o.cb = cb_count; total_cb += cb_count; steps += cb_count;
     o.err = err(); o.used = p->buffer_used; o.depth = (unsigned)p->depth;
@@ -453,7 +459,11 @@ Outcome WSession::call(const Op &op) {
     auto cstr = [](Bytes b) { size_t z = 0; while (z < b.size() && b[z]) z++; b.resize(z); return b; };
     switch (op.code) {
         case W_INIT: {
-            cap = (size_t)(op.a < 0 ? 0 : op.a);
+            if (op.a < 0) {      // NULL destination: an API-declared error class (BINSON_ERROR_NULL latched by init itself)
+                cap = 0; block_free(dblk);
+                LIB(o.ret = binson_writer_init(w, nullptr, (size_t)(-op.a))); inited = true; break;
+            }
+            cap = (size_t)op.a;
             block_free(dblk); dblk = block_alloc(cap, 0); if (cap) memset(dblk.p, FILL, cap);
             LIB(o.ret = binson_writer_init(w, dblk.p, cap)); inited = true; break;
         }
